@@ -366,4 +366,245 @@ theorem splitLoopStrict_agree (text : List Nat) (rtl : Bool) :
         rw [ih _ _ _ (fun x hx => hex x (by simp [hx]))]
     · simp [hc]
 
+/-! ### strict lookups succeed on well-formed matches -/
+
+theorem MatchOk_parts {capsize : Nat} {text : List Nat} {m : Match} (h : MatchOk capsize text m = true) :
+    m.groups.length + 1 = capsize ∧ m.index + m.len ≤ text.length ∧ ∀ g ∈ m.groups, spanOk text g = true := by
+  simpa [MatchOk, and_assoc] using h
+
+theorem sliceLoop_some (text : List Nat) (a b : Nat) (hb : b ≤ text.length) :
+    sliceLoop text a b = some (slice text a b) := by
+  unfold sliceLoop
+  have : ¬ (a < b ∧ text.length < b) := by omega
+  simp [this]
+
+theorem groupText?_ok (capsize : Nat) (text : List Nat) (m : Match) (hm : MatchOk capsize text m = true)
+    (slot : Nat) (hs : slot < capsize) : groupText? text m slot = some (groupText text m slot) := by
+  obtain ⟨hlen, hstop, hg⟩ := MatchOk_parts hm
+  unfold groupText? groupText
+  cases slot with
+  | zero => simp only [groupSpan?, groupSpan]; exact sliceLoop_some _ _ _ hstop
+  | succ k =>
+    have hk : k < m.groups.length := by omega
+    simp only [groupSpan?, groupSpan, List.getD_eq_getElem?_getD, List.getElem?_eq_getElem hk, Option.getD_some]
+    have hmem : m.groups[k] ∈ m.groups := List.getElem_mem hk
+    have hok := hg _ hmem
+    cases hgk : m.groups[k] with
+    | none => rfl
+    | some p =>
+      obtain ⟨i, l⟩ := p
+      rw [hgk] at hok
+      simp only [spanOk, decide_eq_true_eq] at hok
+      exact sliceLoop_some _ _ _ hok
+
+theorem pieceText?_ok (capsize : Nat) (text : List Nat) (m : Match) (hm : MatchOk capsize text m = true)
+    (p : Piece) (hp : pieceOk capsize p = true) : pieceText? text m p = some (pieceText text m p) := by
+  obtain ⟨hlen, hstop, _⟩ := MatchOk_parts hm
+  cases p with
+  | lit s => rfl
+  | group slot =>
+    simp only [pieceOk, decide_eq_true_eq] at hp
+    exact groupText?_ok capsize text m hm slot hp
+  | leftPortion =>
+    simp only [pieceText?, pieceText]
+    rw [sliceLoop_some _ _ _ (by omega), slice_zero]
+  | rightPortion => rfl
+  | lastGroup => exact groupText?_ok capsize text m hm _ (by omega)
+  | wholeString => rfl
+
+theorem expand?_ok (capsize : Nat) (text : List Nat) (m : Match) (hm : MatchOk capsize text m = true)
+    (pieces : List Piece) (hp : ∀ p ∈ pieces, pieceOk capsize p = true) :
+    expand? pieces text m = some (expand pieces text m) := by
+  simp only [expand?, collect_map_some _ (pieceText text m) pieces (fun p h => pieceText?_ok capsize text m hm p (hp p h))]
+  simp [expand, List.flatMap_def]
+
+theorem expandRTL?_ok (capsize : Nat) (text : List Nat) (m : Match) (hm : MatchOk capsize text m = true)
+    (pieces : List Piece) (hp : ∀ p ∈ pieces, pieceOk capsize p = true) :
+    expandRTL? pieces text m = some (pieces.reverse.map (pieceText text m)) :=
+  collect_map_some _ (pieceText text m) pieces.reverse
+    (fun p h => pieceText?_ok capsize text m hm p (hp p (by simpa using h)))
+
+theorem capTexts?_ok (capsize : Nat) (text : List Nat) (m : Match) (hm : MatchOk capsize text m = true) :
+    capTexts? text m = some (capTexts text m) := by
+  obtain ⟨_, _, hg⟩ := MatchOk_parts hm
+  unfold capTexts? capTexts
+  refine collect_map_some _ _ m.groups ?_
+  intro g hmem
+  have hok := hg g hmem
+  cases g with
+  | none => rfl
+  | some p =>
+    obtain ⟨i, l⟩ := p
+    simp only [spanOk, decide_eq_true_eq] at hok
+    simp only
+    exact sliceExpr_ok text i (i + l) (by omega) hok
+
+/-! ### rules inside the string table -/
+
+theorem decodeRule?_ok (strings : List (List Nat)) (r : Int) (h : 0 ≤ r → r.toNat < strings.length) :
+    decodeRule? strings r = some (decodeRule strings r) := by
+  unfold decodeRule?
+  by_cases h0 : 0 ≤ r
+  · have := h h0
+    simp [h0, decodeRule, List.getD_eq_getElem?_getD, List.getElem?_eq_getElem this]
+  · simp [h0]
+
+theorem ruleText?_ok (capsize : Nat) (text : List Nat) (m : Match) (hm : MatchOk capsize text m = true)
+    (strings : List (List Nat)) (r : Int) (h : 0 ≤ r → r.toNat < strings.length)
+    (hp : pieceOk capsize (decodeRule strings r) = true) :
+    ruleText? strings text m r = some (pieceText text m (decodeRule strings r)) := by
+  unfold ruleText?
+  rw [decodeRule?_ok strings r h]
+  exact pieceText?_ok capsize text m hm _ hp
+
+theorem expandData?_ok (capsize : Nat) (text : List Nat) (m : Match) (hm : MatchOk capsize text m = true)
+    (d : ReplacerData) (hwf : RulesWF d.strings d.rules) (hp : ∀ p ∈ d.pieces, pieceOk capsize p = true) :
+    expandData? d text m = some (expand d.pieces text m) := by
+  have hr : ∀ r ∈ d.rules, ruleText? d.strings text m r = some (pieceText text m (decodeRule d.strings r)) := by
+    intro r hr
+    exact ruleText?_ok capsize text m hm d.strings r (hwf r hr)
+      (hp _ (by simp only [ReplacerData.pieces, List.mem_map]; exact ⟨r, hr, rfl⟩))
+  simp only [expandData?, collect_map_some _ _ d.rules hr]
+  simp [expand, ReplacerData.pieces, List.flatMap_def, List.map_map, Function.comp_def]
+
+theorem expandDataRTL?_ok (capsize : Nat) (text : List Nat) (m : Match) (hm : MatchOk capsize text m = true)
+    (d : ReplacerData) (hwf : RulesWF d.strings d.rules) (hp : ∀ p ∈ d.pieces, pieceOk capsize p = true) :
+    expandDataRTL? d text m = some (d.pieces.reverse.map (pieceText text m)) := by
+  have hr : ∀ r ∈ d.rules.reverse, ruleText? d.strings text m r = some (pieceText text m (decodeRule d.strings r)) := by
+    intro r hr
+    have hr' : r ∈ d.rules := by simpa using hr
+    exact ruleText?_ok capsize text m hm d.strings r (hwf r hr')
+      (hp _ (by simp only [ReplacerData.pieces, List.mem_map]; exact ⟨r, hr', rfl⟩))
+  simp only [expandDataRTL?, collect_map_some _ _ d.rules.reverse hr]
+  simp [ReplacerData.pieces, List.map_map, Function.comp_def, List.map_reverse]
+
+/-! ### the scanner and `NewReplacerData` only name slots below `capsize` -/
+
+theorem slotOf_lt (env : Env) (hc : capsOk env = true) (n : Nat) (h : isCaptureSlot env n = true) :
+    slotOf env n < env.capsize := by
+  unfold isCaptureSlot at h
+  unfold slotOf
+  unfold capsOk at hc
+  cases hcaps : env.caps with
+  | none => rw [hcaps] at h; simpa using h
+  | some l =>
+    rw [hcaps] at h hc
+    simp only at h hc ⊢
+    cases hl : l.lookup n with
+    | none => rw [hl] at h; simp at h
+    | some v =>
+      obtain ⟨a', hmem⟩ := lookup_mem l n v hl
+      have hv := (List.all_eq_true.mp hc) _ hmem
+      simp only [decide_eq_true_eq] at hv
+      have hpos : l.length > 0 := List.length_pos_of_mem hmem
+      simp [hpos, hv]
+
+theorem refPiece_ok (env : Env) (hc : capsOk env = true) (n : Int) (h : RefOk env (.ref n)) :
+    pieceOk env.capsize (refPiece env n) = true := by
+  unfold refPiece
+  by_cases hn : 0 ≤ n
+  · simp only [hn, if_true, pieceOk, decide_eq_true_eq]
+    exact slotOf_lt env hc _ (h.1 hn)
+  · simp only [hn, if_false]
+    repeat' split
+    all_goals rfl
+
+theorem piecesOf_ok (env : Env) (hc : capsOk env = true) :
+    ∀ (toks : List Tok) (sb : List Nat), (∀ t ∈ toks, RefOk env t) → ∀ p ∈ piecesOf env toks sb, pieceOk env.capsize p = true := by
+  intro toks
+  induction toks with
+  | nil =>
+    intro sb _ p hp
+    simp only [piecesOf] at hp
+    split at hp
+    · simp at hp; subst hp; rfl
+    · simp at hp
+  | cons t rest ih =>
+    intro sb ht p hp
+    cases t with
+    | ch c => simp only [piecesOf] at hp; exact ih _ (fun t h => ht t (by simp [h])) p hp
+    | ref n =>
+      simp only [piecesOf, List.mem_append, List.mem_cons] at hp
+      rcases hp with hp | hp | hp
+      · split at hp
+        · simp at hp; subst hp; rfl
+        · simp at hp
+      · subst hp; exact refPiece_ok env hc n (ht _ (by simp))
+      · exact ih _ (fun t h => ht t (by simp [h])) p hp
+
+theorem buildData_wf (env : Env) : ∀ (toks : List Tok) (sb : List Nat) (strings : List (List Nat)) (rules : List Int),
+    (∀ t ∈ toks, RefOk env t) → RulesWF strings rules →
+    RulesWF (buildData env toks sb strings rules).strings (buildData env toks sb strings rules).rules := by
+  intro toks
+  induction toks with
+  | nil =>
+    intro sb strings rules _ hwf
+    simp only [buildData]
+    by_cases hsb : sb ≠ []
+    · simp only [if_pos hsb]
+      intro r hm h0
+      simp only [List.mem_append, List.mem_singleton] at hm
+      rcases hm with hm | hm
+      · have := hwf r hm h0; simp; omega
+      · subst hm; simp
+    · simp only [if_neg hsb]; exact hwf
+  | cons t rest ih =>
+    intro sb strings rules ht hwf
+    cases t with
+    | ch c => simp only [buildData]; exact ih _ _ _ (fun t h => ht t (by simp [h])) hwf
+    | ref n =>
+      have hrefok : RefOk env (.ref n) := ht _ (by simp)
+      have hneg : ¬ (0 : Int) ≤ -4 - 1 - (if 0 ≤ n then (slotOf env n.toNat : Int) else n) := by
+        by_cases hn : 0 ≤ n
+        · simp only [hn, if_true]; omega
+        · have := hrefok.2 (by omega); simp only [hn, if_false]; omega
+      simp only [buildData]
+      by_cases hsb : sb ≠ []
+      · simp only [if_pos hsb]
+        refine ih _ _ _ (fun t h => ht t (by simp [h])) ?_
+        intro r hm h0
+        simp only [List.mem_append, List.mem_singleton] at hm
+        rcases hm with (hm | hm) | hm
+        · have := hwf r hm h0; simp; omega
+        · subst hm; simp
+        · subst hm; exact absurd h0 hneg
+      · simp only [if_neg hsb]
+        refine ih _ _ _ (fun t h => ht t (by simp [h])) ?_
+        intro r hm h0
+        simp only [List.mem_append, List.mem_singleton] at hm
+        rcases hm with hm | hm
+        · exact hwf r hm h0
+        · subst hm; exact absurd h0 hneg
+
+/-- what `NewReplacerData` returns for well-formed tables: string indices inside the table, group
+    slots below `capsize` -/
+theorem newReplacerData_ok (isWord : Nat → Bool) (env : Env) (henv : envOk env = true) (hc : capsOk env = true)
+    (rep : List Nat) (d : ReplacerData) (h : newReplacerData isWord env rep = .ok d) :
+    RulesWF d.strings d.rules ∧ ∀ p ∈ d.pieces, pieceOk env.capsize p = true := by
+  obtain ⟨hn, h0⟩ := envOk_names env henv
+  unfold newReplacerData at h
+  cases hs : scanLoop isWord env rep 0 with
+  | error e => rw [hs] at h; simp at h
+  | ok toks =>
+    rw [hs] at h
+    simp only [Except.ok.injEq] at h
+    subst h
+    have hok := scanLoop_ok isWord env hn h0 rep 0 toks hs
+    have hwf0 : RulesWF ([] : List (List Nat)) ([] : List Int) := by intro r hr; simp at hr
+    refine ⟨buildData_wf env toks [] [] [] hok hwf0, ?_⟩
+    rw [buildData_pieces env toks [] [] [] hok hwf0]
+    simpa using piecesOf_ok env hc toks [] hok
+
+theorem parse_ok (isWord : Nat → Bool) (env : Env) (henv : envOk env = true) (hc : capsOk env = true)
+    (rep : List Nat) (pieces : List Piece) (h : parse isWord env rep = .ok pieces) :
+    ∀ p ∈ pieces, pieceOk env.capsize p = true := by
+  unfold parse at h
+  cases hd : newReplacerData isWord env rep with
+  | error e => rw [hd] at h; simp at h
+  | ok d =>
+    rw [hd] at h
+    simp only [Except.ok.injEq] at h
+    subst h
+    exact (newReplacerData_ok isWord env henv hc rep d hd).2
+
 end RegexVerif.Lemmas.ReplaceStrict
